@@ -149,9 +149,11 @@ var tagKeys = []string{"host", "'ip.x'", "`k 3`"}
 var filterForms = []string{
 	"%s='1.1.1.1'", "%s!='a'", "%s<>'a b'", "%s in ('a')", "%s in ('a','/b',c)", "%s not in ('a','b')",
 	"%s like 'a%%'", "%s not like '%%a'", "%s=~'a.*'", "%s!~'/a[0-9]+/'",
+	// lists that repeat a value (whatever the parser makes of them, it makes the same of them every time)
+	"%s in ('a','b','c','a')", "%s not in ('b','a','b','c','d')",
 }
-var filterFormsFew = []int{0, 5, 6, 9}       // 3 filters, quick
-var filterFormsMid = []int{0, 4, 5, 6, 7, 9} // 3 filters, thorough
+var filterFormsFew = []int{0, 5, 6, 9, 10}         // 3 filters, quick
+var filterFormsMid = []int{0, 4, 5, 6, 7, 9, 10, 11} // 3 filters, thorough
 
 type timeForm struct {
 	s                string
